@@ -20,6 +20,7 @@ import (
 	"context"
 	"errors"
 	"io"
+	"os"
 
 	"perkeep.org/pkg/blob"
 )
@@ -33,6 +34,19 @@ var _ blob.SubFetcher = (*storage)(nil)
 // check. The returned error should be os.ErrNotExist if the blob
 // doesn't exist.
 func (s *storage) SubFetch(ctx context.Context, ref blob.Ref, offset, length int64) (io.ReadCloser, error) {
+	rc, err := s.subFetch(ctx, ref, offset, length)
+	if errors.Is(err, os.ErrNotExist) {
+		// It may have been packed between the meta lookup and the look
+		// into small (the meta rows are committed before the loose copies
+		// are deleted): once more, now finding the meta row.
+		if m, merr := s.getMetaRow(ref); merr == nil && m.isPacked() {
+			return s.subFetch(ctx, ref, offset, length)
+		}
+	}
+	return rc, err
+}
+
+func (s *storage) subFetch(ctx context.Context, ref blob.Ref, offset, length int64) (io.ReadCloser, error) {
 	// TODO: pass ctx to more calls within this method.
 	m, err := s.getMetaRow(ref)
 	if err != nil {
